@@ -376,6 +376,14 @@ func ResolvePseudos(f Formula, evs []*Event, conds []Lit) Formula {
 
 func evalPseudo(p Pseudo, evs []*Event, conds []Lit) bool {
 	switch p.Kind {
+	case "passed":
+		// some earlier call to the callee after which the path went on (its error was nil, or was
+		// classified and swallowed by a wrapper)
+		for _, e := range evs {
+			if e.Kind == EvCall && !e.Deferred && e.CalleeName == p.Arg {
+				return true
+			}
+		}
 	case "called":
 		for _, e := range evs {
 			if e.Kind == EvCall && !e.Deferred && e.CalleeName == p.Arg {
